@@ -846,3 +846,8 @@ fire('par6c-flag-to-tokenizer', ['C07'], ['PAR-6c'], 'the strict / recovering fl
      (GRAMMAR, "    def _tokenize_lines(self, lines, **kwargs) -> Iterator[PythonToken]:", "    def _tokenize_lines(self, lines, error_recovery=True, **kwargs) -> Iterator[PythonToken]:"))
 fire('src1-strip-eval-input', ['C01', 'C06'], ['SRC-1'], 'the text of an eval_input parse is stripped before it is tokenized (rt14-C06)',
      (GRAMMAR, "        code = python_bytes_to_unicode(code)\n", "        code = python_bytes_to_unicode(code)\n        if start_symbol == 'eval_input':\n            code = code.strip()\n"))
+
+# round 14: a loop over children that breaks on a type mismatch (rt14-C14)
+fire('brk1-with-items-break', ['C14'], ['BRK-1'], 'WithStmt.get_defined_names stops at the first item that is not a with_item node (an item without `as` is a bare expression)',
+     (PYTREE, "        for with_item in self.children[1:-2:2]:\n            # Check with items for 'as' names.\n            if with_item.type == 'with_item':\n                names += _defined_names(with_item.children[2], include_setitem)\n",
+      "        for with_item in self.children[1::2]:\n            if with_item.type != 'with_item':\n                break\n            names += _defined_names(with_item.children[2], include_setitem)\n"))
